@@ -32,7 +32,13 @@ fn parse_display(d: &str) -> Option<(usize, usize, String, Option<usize>, bool)>
     let bar3 = rows[urow].find(" | ")?;
     let under = &rows[urow][bar3 + 3..];
     let marker = under.chars().position(|ch| ch == '^');
-    Some((l, c, text, marker, bar2 == bar3))
+    // "under the column" is a statement about what one sees: in front of the marker the underline row must have a
+    // tab exactly where the line text has one (a tab is as wide as the tab above it) and blanks elsewhere
+    let tabs_ok = match marker {
+        Some(m) => under.chars().take(m).zip(text.chars().chain(std::iter::repeat(' '))).all(|(u, t)| if t == '\t' { u == '\t' } else { u == ' ' }),
+        None => true,
+    };
+    Some((l, c, text, marker, bar2 == bar3 && tabs_ok))
 }
 
 fn pair_lc_builder(s: &str, off: usize) -> Result<(usize, usize), String> {
